@@ -118,6 +118,14 @@ def _extending_cases(rng):
             for b in docs:
                 yield mk([ctx], [(0, 0, a), (0, 0, b), (0, 1, a)], rng, via=False)
         yield mk([ctx, ctx], [(0, 0, docs[0]), (1, 0, docs[1]), (0, 0, docs[1]), (1, 1, docs[2])], rng, via=False)
+    # an environment with a long-lived body delta (definitions + fallback spec), used several times in one document and over parses
+    bctx = dict(extending_ctx('named'), bodydelta=True)
+    bdocs = ['\\foo{x} \\begin{defs}\\item \\baz{w}{v}\\end{defs} \\foo{x}', '\\begin{defs}\\item[a] \\foo{x} and \\bar{y}z\\end{defs}',
+             'A \\begin{defs}\\begin{defs}\\qux{1}\\end{defs}\\qux{2}\\end{defs}', '\\begin{defs}\\a{1}\\end{defs}\\begin{defs}\\b{2}\\end{defs}', '\\emph{q}']
+    for a in bdocs:
+        for b in bdocs:
+            for t1 in (0, 1):
+                yield mk([bctx], [(0, t1, a), (0, 0, b), (0, t1, a)], rng, via=False)
 
 def _cases(tier, rng):
     for c in _extending_cases(rng):
